@@ -100,6 +100,18 @@ def build(spec):
             feed.loc[j, ["results_turnout", "results_dem", "results_gop"]] = [int(3 * b.baseline_turnout) + 1,
                                                                              int(2 * b.baseline_dem), int(b.baseline_gop)]
             feed.loc[j, "percent_expected_vote"] = float(max(thr, 100))
+    # a row that has arrived with one requested count still missing (null cell): under the drop policy its baseline row
+    # is dropped from the join, so the unit is "in the feed but not in the (possibly dropped) baseline join" = unexpected
+    if not margin and call["handle_unreporting"] == "drop" and i % 3 == 0 and len(idx) > n_edit \
+            and not call.get("feed_as_lists"):
+        j = idx[n_edit]
+        f = str(feed.loc[j, "geographic_unit_fips"])
+        if f in base.index:
+            cols = [f"results_{e}" for e in call["estimands"] if f"results_{e}" in feed.columns]
+            c = cols[int(i // 3) % len(cols)]
+            feed[c] = feed[c].astype(float)
+            feed.loc[j, c] = float("nan")
+            el.meta["null_cell_units"] = [f]
     # overlapping reasons: blocklist zero-baseline and strange units
     zb = list(el.pre[el.pre.baseline_turnout == 0].geographic_unit_fips)
     bl = list(mp.get("unit_blocklist", []))
@@ -132,6 +144,9 @@ def classify(el, feed, call, outlier_flags):
         f = b["geographic_unit_fips"]
         base_ids.add(f)
         r = fr.get((b["postal_code"], f))
+        if r is not None and policy == "drop" and f in el.meta.get("null_cell_units", ()):
+            cls[f] = (None, "dropped")  # baseline row dropped (null count); the feed row is classified below
+            continue
         if r is None:
             if policy == "drop":
                 cls[f] = (None, "dropped")
@@ -276,6 +291,9 @@ def run_case(spec, inputs=None):
     fc, _ = ref.feed_counts(feed)
     base = {r["geographic_unit_fips"]: r for r in ref.rows(el.pre)}
     for f, lst in got.items():
+        if f in el.meta.get("null_cell_units", ()):
+            out["counters"]["null_cell_units_classified"] = out["counters"].get("null_cell_units_classified", 0) + 1
+            continue  # the derived columns of a unit with a missing count are not part of the statement
         for gf, gc, row in lst:
             c = fc.get(f)
             if c is None:
